@@ -43,6 +43,9 @@ type Evidence struct {
 }
 
 func writeEvidence(ev *Evidence) {
+	if os.Getenv("VERIF_NO_EVIDENCE") != "" {
+		return // experiments against a modified tree (seed evaluation) must not replace the evidence of /repo itself
+	}
 	os.MkdirAll(filepath.Join(layera.Root(), "evidence"), 0o755)
 	b, _ := json.MarshalIndent(ev, "", " ")
 	os.WriteFile(filepath.Join(layera.Root(), "evidence", ev.PropertyID+".json"), append(b, '\n'), 0o644)
@@ -128,6 +131,8 @@ type lbRun struct {
 	// is written by its kernel runner)
 	NoEvidence bool
 	LastCov    map[string]interface{}
+	// CaseBase: first case number of this leg's replay directories
+	CaseBase int
 }
 
 type lbResult struct {
@@ -229,7 +234,7 @@ func (lr *lbRun) finish(res *lbResult, level string, extra map[string]interface{
 	distinct := 0
 	var skipped []string
 	replayDir := filepath.Join(layera.Root(), "replays", prop)
-	os.RemoveAll(replayDir)
+	clearReplaysOnce(prop)
 	type viol struct {
 		f *layerb.Finding
 	}
@@ -305,7 +310,7 @@ func (lr *lbRun) finish(res *lbResult, level string, extra map[string]interface{
 			fmt.Printf("... further violations suppressed (%d candidates in total)\n", len(viols))
 			break
 		}
-		dir := filepath.Join(replayDir, fmt.Sprintf("case%02d", i))
+		dir := filepath.Join(replayDir, fmt.Sprintf("case%02d", lr.CaseBase+i))
 		status := "unsupported: generation outcome"
 		if f.Kind != "generation" {
 			// one native replay per conv and kind is enough
@@ -330,14 +335,14 @@ func (lr *lbRun) finish(res *lbResult, level string, extra map[string]interface{
 		f.Replayed = status
 		if status == "not-reproduced" {
 			spurious++
-			saveReplay(replayDir, prop, i, &f, res)
+			saveReplay(replayDir, prop, lr.CaseBase+i, &f, res)
 			fmt.Printf("SPURIOUS: conv=%s kind=%s at=%s (%s) did not reproduce natively (engine/oracle bug), see %s\n", f.Conv, f.Kind, f.Path, f.Note, dir)
 			continue
 		}
 		if status == "reproduced" {
 			reproduced++
 		}
-		saveReplay(replayDir, prop, i, &f, res)
+		saveReplay(replayDir, prop, lr.CaseBase+i, &f, res)
 		violations++
 		fmt.Printf("VIOLATION property=%s replay=%s\n", prop, dir)
 		fmt.Printf("  conv=%s kind=%s at=%s: %s\n  input: %s\n  native replay: %s\n", f.Conv, f.Kind, f.Path, f.Note, f.Input, status)
@@ -442,6 +447,19 @@ func (lr *lbRun) finish(res *lbResult, level string, extra map[string]interface{
 }
 
 var startTime = time.Now()
+
+var replaysCleared = map[string]bool{}
+
+// clearReplaysOnce empties /verif/replays/<prop> the first time a leg of the property asks for it: legs of one
+// run share the directory and must not delete each other's material.
+func clearReplaysOnce(prop string) {
+	if replaysCleared[prop] {
+		return
+	}
+	replaysCleared[prop] = true
+	os.RemoveAll(filepath.Join(layera.Root(), "replays", prop))
+}
+
 
 func firstLine(s string) string {
 	s = strings.TrimSpace(s)
